@@ -2,5 +2,4 @@ package main
 
 func extractStages()      {}
 func extractExtractors()  {}
-func extractArchiver()    {}
 func extractPipeline()    {}
